@@ -4,13 +4,22 @@
 import json, os, sys, collections, shutil
 tsv = sys.argv[1]
 fired = collections.defaultdict(dict)   # id -> prop -> rules text
+ran = {}      # id -> the checks that were run for it (neighbour matrix); absent = all 20
+errors = {}
 for l in open(tsv):
     f = l.rstrip('\n').split('\t')
     if len(f) < 3: continue
+    if f[1] == 'RAN':
+        ran[f[0]] = f[2].split()
+        fired.setdefault(f[0], {})
+        continue
+    if f[1] == 'ERROR':
+        errors[f[0]] = f[2]
+        continue
     fired[f[0]][f[1]] = (f[3] if len(f) > 3 else '').strip() or f[2]
 ids = sorted(d for d in os.listdir('/verif/seeded') if os.path.isdir(f'/verif/seeded/{d}'))
 out = ["# Catch matrix", "",
-       "One line per seeded change: which rules fire when the change is applied to a scratch worktree of /repo HEAD and all 20 quick checks are run (`tools/catch_matrix.sh`). `own` = the property the change was written against.", ""]
+       "One line per seeded change: which rules fire when the change is applied to a scratch worktree of /repo HEAD and the quick checks are run. `own` = the property the change was written against. The matrix of this file was produced by `tools/catch_neighbours.sh`: each change is run against its own property and every property whose anchored packages contain a file the change touches (a check reads its anchored packages only; the full 20-check matrix of `tools/catch_matrix.sh` takes about three hours for the whole set).", ""]
 for kind, title in (('mutant', '## Breaking changes (the own property must report them)'), ('refactor', '## Behaviour-preserving refactors (every check must stay silent)')):
     out += [title, "", "| id | what | own property | other properties |", "|---|---|---|---|"]
     n = caught = silent = 0
@@ -24,11 +33,11 @@ for kind, title in (('mutant', '## Breaking changes (the own property must repor
         oth = '; '.join(f"{p}: {r}" for p, r in sorted(o.items()) if p != own)
         n += 1
         if ownr: caught += 1
-        if not o: silent += 1
+        if not o and d not in errors: silent += 1
         t = (m.get('title') or '').replace('|', '/')
         out.append(f"| {d} | {t} | {ownr or ('—' if isref else '**not caught** (see DESIGN.md §7)')} | {oth or '—'} |")
     out.append("")
-    out.append(f"{n} changes; " + (f"{caught} reported by their own property." if kind == 'mutant' else f"{silent} silent on all 20 checks."))
+    out.append(f"{n} changes; " + (f"{caught} reported by their own property." if kind == 'mutant' else f"{silent} silent on every check run for them."))
     out.append("")
 open('/verif/seeded/CATCH.md', 'w').write('\n'.join(out))
 shutil.copy(tsv, '/verif/seeded/catch_matrix.tsv')
